@@ -332,7 +332,7 @@ func ruleNamedOnly(c *Ctx) {
 	}
 	// loop nesting: the sorted list is walked by the outer loop
 	order := loopNesting(fn)
-	if order != "locations>names" {
+	if order != "locations>names" && order != "locations" {
 		bad = append(bad, "loop nesting is "+order+": the list sorted by specificity must be the OUTER loop, otherwise the first configured name wins over a more specific class")
 	}
 	c.check(len(bad) == 0, "named-only", name, pos, fmt.Sprintf("%d paths: a non-nil result is an element of the sorted list whose name equals one of the given names and which matches (host, url); the sorted list is the outer loop", n), strings.Join(uniq(bad), " || "), n)
@@ -376,6 +376,9 @@ func loopNesting(fn *ssa.Function) string {
 			coll = "locations"
 		}
 		loops = append(loops, loop{b, coll, cycleOf(b)})
+	}
+	if len(loops) == 1 {
+		return loops[0].coll // the other collection is scanned by a helper
 	}
 	if len(loops) != 2 {
 		return fmt.Sprintf("%d loops", len(loops))
